@@ -243,3 +243,387 @@ Section Agree.
       split; [assumption|]. split; [assumption|]. split; [assumption|]. split; [assumption|].
       split; [assumption|]. split; [|assumption]. exact H6.
   Qed.
+
+  Variables sel root : Z.
+  Let vars : list (Z * Z) := [(sel, root)].
+  Let bnd : binding := [(sel, o)].
+
+  Lemma renv_root st env : renv st = Some env -> nth_error env 0 = Some (row_of o).
+  Proof. intros H. destruct (build_env_prefix _ _ _ H) as [more [-> _]]. reflexivity. Qed.
+
+  Lemma toperand_ok x : forall st env v,
+    inv st -> renv st = Some env -> operand_shape sel x = true -> operand_data sc w sel root o x = Some v ->
+    exists e st' more,
+      toperand sc vars root st x = ROk e st' /\ inv st' /\ renv st' = Some (env ++ more) /\
+      (forall more', eval_sx ((env ++ more) ++ more') e = v) /\ eval_operand w bnd x = Ok v /\
+      scalar_val v = true /\ sx_bad e = false /\ e <> SConst VNull.
+  Proof.
+    intros st env v Hinv He Hs Hd. destruct x as [x ch| c | |]; simpl in Hs; try discriminate.
+    - destruct ch as [|a0 ch0]; try discriminate. cbn [operand_data] in Hd. rewrite Hs in Hd.
+      unfold toperand, tattr, vars, bnd. simpl assoc. rewrite Hs.
+      unfold base_inst. rewrite Z.eqb_refl.
+      destruct (twalk_ok _ _ _ _ _ _ _ Hinv He (renv_root _ _ He) Hd)
+        as [i [a [st' [more [H1 [H2 [H3 [H4 [H5 [H6 H7]]]]]]]]]].
+      exists (SCol i a), st', more. rewrite H1.
+      split; [reflexivity|]. split; [assumption|]. split; [assumption|].
+      split; [intros more'; simpl; rewrite ecol_app; auto|].
+      split; [simpl; rewrite Hs; exact H6|]. split; [assumption|]. split; [reflexivity|discriminate].
+    - simpl in Hd. destruct (scalar_val c) eqn:Es; try discriminate. injection Hd as <-.
+      exists (SConst c), st, []. rewrite app_nil_r.
+      split; [reflexivity|]. split; [assumption|]. split; [assumption|].
+      split; [reflexivity|]. split; [reflexivity|]. split; [assumption|].
+      split; [now destruct c|]. intros H. injection H as ->. discriminate.
+  Qed.
+
+  Lemma teqjoin_none st op v ch r :
+    operand_shape sel (OAttr v ch) = true -> operand_shape sel r = true ->
+    teqjoin sc vars root st op (OAttr v ch) r = None.
+  Proof.
+    intros H1 H2. destruct ch; try discriminate. simpl in H1.
+    destruct op; simpl; auto. destruct r as [v2 ch2| | |]; auto.
+    destruct ch2; try discriminate. simpl in H2.
+    apply Z.eqb_eq in H1, H2. subst. now rewrite Z.eqb_refl.
+  Qed.
+
+  Lemma mk_cmp_some op a b : b <> SConst VNull -> mk_cmp op a b = Some (SCmp op a b).
+  Proof. intros H. destruct b as [|[]]; try reflexivity. now destruct H. Qed.
+
+  Lemma unbindable_scalars cs : forallb scalar_val cs = true -> existsb unbindable cs = false.
+  Proof.
+    induction cs as [|c cs IH]; simpl; auto. rewrite andb_true_iff. intros [H1 H2].
+    rewrite IH by auto. now destruct c.
+  Qed.
+
+  Lemma tcond_ok c : forall st env,
+    inv st -> renv st = Some env -> cond_shape sel c = true -> cond_ok sc w sel root o c = true ->
+    exists p st' more b,
+      tcond sc vars root st c = ROk (Some p) st' /\ inv st' /\ renv st' = Some (env ++ more) /\
+      eval_cond w bnd c = Ok b /\ (forall more', eval_pred ((env ++ more) ++ more') p = tv_of_bool b) /\
+      pred_bad p = false.
+  Proof.
+    induction c as [op l r|ct it|p IHp q IHq|p IHp q IHq|p _|x]; intros st env Hinv He Hs Hd;
+      cbn [cond_shape cond_ok] in Hs, Hd; try discriminate.
+    - (* comparison *)
+      destruct l as [v ch| | |]; try discriminate.
+      apply andb_true_iff in Hs. destruct Hs as [Hs1 Hs2].
+      destruct (operand_data sc w sel root o (OAttr v ch)) as [a|] eqn:Ea; try discriminate.
+      destruct (operand_data sc w sel root o r) as [b|] eqn:Eb; try discriminate.
+      destruct (toperand_ok _ _ _ _ Hinv He Hs1 Ea) as [e1 [st1 [m1 [T1 [I1 [R1 [V1 [P1 [S1 [B1 N1]]]]]]]]]].
+      destruct (toperand_ok _ _ _ _ I1 R1 Hs2 Eb) as [e2 [st2 [m2 [T2 [I2 [R2 [V2 [P2 [S2 [B2 N2]]]]]]]]]].
+      destruct (cmp_agree w op a b Hd) as [C1 C2].
+      exists (SCmp op e1 e2), st2, (m1 ++ m2), (tv_true (sql_cmp op a b)).
+      cbn [tcond]. unfold tcmp. rewrite (teqjoin_none _ _ _ _ _ Hs1 Hs2), T1, T2, (mk_cmp_some _ _ _ N2).
+      rewrite app_assoc.
+      split; [reflexivity|]. split; [assumption|]. split; [assumption|].
+      split; [cbn [eval_cond]; rewrite P1, P2; exact C1|].
+      split; [|simpl; now rewrite B1, B2].
+      intros more'. cbn [eval_pred]. rewrite V2. rewrite <- (app_assoc (env ++ m1) m2 more'), V1. exact C2.
+    - (* membership in a literal list *)
+      destruct ct as [| |cs|]; try discriminate. destruct it as [v ch| | |]; try discriminate.
+      apply andb_true_iff in Hs. destruct Hs as [Hs1 Hs2].
+      destruct (operand_data sc w sel root o (OAttr v ch)) as [a|] eqn:Ea; try discriminate.
+      destruct (toperand_ok _ _ _ _ Hinv He Hs1 Ea) as [e1 [st1 [m1 [T1 [I1 [R1 [V1 [P1 [S1 [B1 N1]]]]]]]]]].
+      exists (SIn e1 cs), st1, m1, (existsb (fun c => val_eq eq_fuel w a c) cs).
+      cbn [tcond]. unfold tcontains. cbn [toperand] in T1. rewrite T1.
+      split; [reflexivity|]. split; [assumption|]. split; [assumption|].
+      split; [cbn [eval_cond eval_operand]; cbn [eval_operand] in P1; rewrite P1; reflexivity|].
+      split; [|simpl; now rewrite B1, unbindable_scalars].
+      intros more'. cbn [eval_pred]. rewrite V1. now apply in_agree.
+    - (* and *)
+      apply andb_true_iff in Hs, Hd. destruct Hs as [Hs1 Hs2]. destruct Hd as [Hd1 Hd2].
+      destruct (IHp _ _ Hinv He Hs1 Hd1) as [p1 [st1 [m1 [b1 [T1 [I1 [R1 [E1 [V1 B1]]]]]]]]].
+      destruct (IHq _ _ I1 R1 Hs2 Hd2) as [p2 [st2 [m2 [b2 [T2 [I2 [R2 [E2 [V2 B2]]]]]]]]].
+      exists (SAnd p1 p2), st2, (m1 ++ m2), (b1 && b2). cbn [tcond]. rewrite T1, T2. rewrite app_assoc.
+      split; [reflexivity|]. split; [assumption|]. split; [assumption|].
+      split; [cbn [eval_cond]; rewrite E1; destruct b1; simpl; auto|].
+      split; [|simpl; now rewrite B1, B2].
+      intros more'. cbn [eval_pred]. rewrite V2, <- (app_assoc (env ++ m1) m2 more'), V1. apply tv_and_bool.
+    - (* or *)
+      apply andb_true_iff in Hs, Hd. destruct Hs as [Hs1 Hs2]. destruct Hd as [Hd1 Hd2].
+      destruct (IHp _ _ Hinv He Hs1 Hd1) as [p1 [st1 [m1 [b1 [T1 [I1 [R1 [E1 [V1 B1]]]]]]]]].
+      destruct (IHq _ _ I1 R1 Hs2 Hd2) as [p2 [st2 [m2 [b2 [T2 [I2 [R2 [E2 [V2 B2]]]]]]]]].
+      exists (SOr p1 p2), st2, (m1 ++ m2), (b1 || b2). cbn [tcond]. rewrite T1, T2. rewrite app_assoc.
+      split; [reflexivity|]. split; [assumption|]. split; [assumption|].
+      split; [cbn [eval_cond]; rewrite E1; destruct b1; simpl; auto|].
+      split; [|simpl; now rewrite B1, B2].
+      intros more'. cbn [eval_pred]. rewrite V2, <- (app_assoc (env ++ m1) m2 more'), V1. apply tv_or_bool.
+  Qed.
+End Agree.
+
+Lemma inv_jm0 : inv jm0.
+Proof. split; [|split]; try reflexivity. intros src a i H. discriminate. Qed.
+
+Lemma collect_single (f : binding -> res bool) (g : obj -> bool) v (l : list obj) :
+  (forall o, In o l -> f [(v, o)] = Ok (g o)) ->
+  collect f v (flat_map (fun o => [[(v, o)]]) l) = Ok (map o_key (filter g l)).
+Proof.
+  induction l as [|o l IH]; intros H; simpl; auto.
+  rewrite (H o) by (now left). rewrite IH by (intros; apply H; now right).
+  rewrite Z.eqb_refl. now destruct (g o).
+Qed.
+
+Lemma filter_map_rows (wt : list row -> bool) (envf : obj -> list row) (g : obj -> bool) (l : list obj) :
+  (forall o, In o l -> root_id (envf o) = o_key o /\ wt (envf o) = g o) ->
+  map root_id (filter wt (map envf l)) = map o_key (filter g l).
+Proof.
+  induction l as [|o l IH]; intros H; simpl; auto.
+  destruct (H o (or_introl eq_refl)) as [H1 H2]. rewrite H2.
+  assert (IH' := IH (fun o' Ho' => H o' (or_intror Ho'))).
+  destruct (g o); simpl; rewrite ?H1, IH'; reflexivity.
+Qed.
+
+(* F07 without the (technical) requirement that the selected type has at least one instance is f07; the
+   non-empty case is proved here, the empty one in [agree_empty] *)
+Lemma agree_nonempty sc q w s :
+  translate sc q = TOk s -> f07 sc q w = true ->
+  (exists v root, q_vars q = [(v, root)] /\ instances sc w root <> []) ->
+  sem_res s (encode sc w) = answers sc q w.
+Proof.
+  intros Ht Hf [v0 [root0 [Ev0 Hne]]]. unfold f07 in Hf. rewrite Ev0 in Hf.
+  destruct (q_cond q) as [c|] eqn:Ec; try discriminate.
+  repeat (apply andb_true_iff in Hf; destruct Hf as [Hf ?]).
+  rename H into Hall, H0 into Hnd, H1 into Hshape. apply Z.eqb_eq in Hf.
+  unfold translate in Ht. rewrite Ev0, Ec, <- Hf in Ht. simpl assoc in Ht. rewrite Z.eqb_refl in Ht.
+  destruct (tcond sc [(v0, root0)] root0 jm0 c) as [p st| | |] eqn:Et; try discriminate.
+  injection Ht as <-.
+  rewrite forallb_forall in Hall.
+  assert (Hobj : forall o, In o (instances sc w root0) ->
+            exists p0 more b, p = Some p0 /\ build_env sc w [row_of o] (j_joins st) = Some ([row_of o] ++ more) /\
+                              eval_cond w [(v0, o)] c = Ok b /\ eval_pred ([row_of o] ++ more) p0 = tv_of_bool b /\
+                              pred_bad p0 = false /\ j_invalid st = false).
+  { intros o Ho.
+    destruct (tcond_ok sc w o v0 root0 c jm0 [row_of o] inv_jm0 eq_refl Hshape (Hall o Ho))
+      as [p0 [st' [more [b [T [I [R [E [V B]]]]]]]]].
+    rewrite Et in T. injection T as -> ->. exists p0, more, b.
+    repeat split; auto. specialize (V []). now rewrite app_nil_r in V. apply I. }
+  destruct (instances sc w root0) as [|o1 rest] eqn:Ei; [now destruct Hne|]. rewrite <- Ei in *.
+  destruct (Hobj o1) as [p0 [_ [_ [-> [_ [_ [_ [Hbad Hinvd]]]]]]]]; [rewrite Ei; now left|].
+  set (g := fun o => match eval_cond w [(v0, o)] c with Ok b => b | Err _ => false end).
+  set (envf := fun o => match build_env sc w [row_of o] (j_joins st) with Some e => e | None => [] end).
+  unfold sem_res, sem. cbn [s_invalid s_where s_joins s_root]. rewrite Hinvd, Hbad. cbn [orb].
+  unfold answers. rewrite Ev0, Ec. cbn [bindings map].
+  rewrite <- Hf. rewrite (collect_single _ g).
+  - f_equal. unfold encode at 2. rewrite map_map.
+    rewrite (envs_of_build sc w Hnd (j_joins st) _ (map envf (instances sc w root0))).
+    + apply filter_map_rows. intros o Ho.
+      destruct (Hobj o Ho) as [p1 [more [b [Hp [Hb [He [Hv _]]]]]]]. injection Hp as <-.
+      unfold envf, g. rewrite Hb, He. split; [reflexivity|].
+      unfold where_true. cbn [s_where]. rewrite Hv. apply tv_true_of_bool.
+    + assert (HF : forall l : list obj,
+                (forall o, In o l -> exists e, build_env sc w [row_of o] (j_joins st) = Some e) ->
+                Forall2 (fun env out => build_env sc w env (j_joins st) = Some out)
+                        (map (fun x => [row_of x]) l) (map envf l)).
+      { induction l as [|o l IH]; intros Hl; simpl; constructor.
+        - destruct (Hl o (or_introl eq_refl)) as [e He]. unfold envf. now rewrite He.
+        - apply IH. intros; apply Hl; now right. }
+      apply HF. intros o Ho. destruct (Hobj o Ho) as [p1 [more [b [_ [Hb _]]]]]. eauto.
+  - intros o Ho. destruct (Hobj o Ho) as [p1 [more [b [_ [_ [He _]]]]]]. unfold g. now rewrite He.
+Qed.
+
+(* ---------- the selected type has no instance: the statement still executes, both sides are empty ---------- *)
+Definition safe (st : jm) : Prop := j_loose st = [] /\ j_invalid st = false.
+
+Lemma alias_for_safe st cur a tgt i st' : safe st -> alias_for st cur a tgt = (i, st') -> safe st'.
+Proof.
+  intros [H1 H2]. unfold alias_for. destruct (lookup_path (j_paths st) cur a).
+  - intros H. injection H as <- <-. now split.
+  - intros H. injection H as <- <-. split; simpl; rewrite H1; simpl; auto. now rewrite H2.
+Qed.
+Lemma twalk_safe sc chain : forall st cur ccls e st',
+  safe st -> twalk sc st cur ccls chain = ROk e st' -> safe st' /\ sx_bad e = false.
+Proof.
+  induction chain as [|a rest IH]; intros st cur ccls e st' Hs H; simpl in H; try discriminate.
+  destruct (field_kind sc ccls a) as [[|tgt]|]; try discriminate.
+  - destruct rest; try discriminate. injection H as <- <-. now split.
+  - destruct rest as [|b rest'].
+    + injection H as <- <-. now split.
+    + destruct (alias_for st cur a tgt) as [i st1] eqn:E. eapply IH; [|exact H]. eapply alias_for_safe; eauto.
+Qed.
+Lemma toperand_safe sc sel root x st e st' :
+  safe st -> operand_shape sel x = true -> toperand sc [(sel, root)] root st x = ROk e st' ->
+  safe st' /\ sx_bad e = false.
+Proof.
+  intros Hs Hx H. destruct x as [v ch|c| |]; simpl in Hx; try discriminate.
+  - destruct ch; try discriminate. unfold toperand, tattr in H. simpl assoc in H. rewrite Hx in H.
+    unfold base_inst in H. rewrite Z.eqb_refl in H. eapply twalk_safe; eauto.
+  - simpl in H. injection H as <- <-. split; auto. now destruct c.
+Qed.
+Lemma tcond_safe sc sel root c : forall st p st',
+  safe st -> cond_shape sel c = true -> tcond sc [(sel, root)] root st c = ROk p st' ->
+  safe st' /\ forall p0, p = Some p0 -> pred_bad p0 = false.
+Proof.
+  induction c as [op l r|ct it|p1 IH1 q1 IH2|p1 IH1 q1 IH2|p1 _|x]; intros st p st' Hs Hc H;
+    cbn [cond_shape] in Hc; try discriminate.
+  - destruct l as [v ch| | |]; try discriminate. apply andb_true_iff in Hc. destruct Hc as [Hc1 Hc2].
+    cbn [tcond] in H. unfold tcmp in H. rewrite (teqjoin_none sc sel root st op v ch r Hc1 Hc2) in H.
+    destruct (toperand sc [(sel, root)] root st (OAttr v ch)) as [a st1| | |] eqn:E1; try discriminate.
+    destruct (toperand sc [(sel, root)] root st1 r) as [b st2| | |] eqn:E2; try discriminate.
+    destruct (toperand_safe _ _ _ _ _ _ _ Hs Hc1 E1) as [S1 B1].
+    destruct (toperand_safe _ _ _ _ _ _ _ S1 Hc2 E2) as [S2 B2].
+    destruct (mk_cmp op a b) as [p0|] eqn:Em; try discriminate. injection H as <- <-. split; auto.
+    intros p1 Hp. injection Hp as <-. unfold mk_cmp in Em.
+    destruct b as [|[]]; destruct op; try discriminate; injection Em as <-; simpl; rewrite ?B1; auto.
+  - destruct ct as [| |cs|]; try discriminate. destruct it as [v ch| | |]; try discriminate.
+    apply andb_true_iff in Hc. destruct Hc as [Hc1 Hc2].
+    cbn [tcond] in H. unfold tcontains in H.
+    destruct (tattr sc [(sel, root)] root st v ch) as [a st1| | |] eqn:E1; try discriminate.
+    injection H as <- <-.
+    destruct (toperand_safe sc sel root (OAttr v ch) st a st1 Hs Hc1 E1) as [S1 B1]. split; auto.
+    intros p0 Hp. injection Hp as <-. simpl. rewrite B1. now apply unbindable_scalars.
+  - apply andb_true_iff in Hc. destruct Hc as [Hc1 Hc2]. cbn [tcond] in H.
+    destruct (tcond sc [(sel, root)] root st p1) as [a st1| | |] eqn:E1; try discriminate.
+    destruct (tcond sc [(sel, root)] root st1 q1) as [b st2| | |] eqn:E2; try discriminate.
+    injection H as <- <-. destruct (IH1 _ _ _ Hs Hc1 E1) as [S1 B1]. destruct (IH2 _ _ _ S1 Hc2 E2) as [S2 B2].
+    split; auto. intros p0 Hp. destruct a, b; simpl in Hp; try discriminate; injection Hp as <-; simpl;
+      rewrite ?(B1 _ eq_refl), ?(B2 _ eq_refl); auto.
+  - apply andb_true_iff in Hc. destruct Hc as [Hc1 Hc2]. cbn [tcond] in H.
+    destruct (tcond sc [(sel, root)] root st p1) as [a st1| | |] eqn:E1; try discriminate.
+    destruct (tcond sc [(sel, root)] root st1 q1) as [b st2| | |] eqn:E2; try discriminate.
+    injection H as <- <-. destruct (IH1 _ _ _ Hs Hc1 E1) as [S1 B1]. destruct (IH2 _ _ _ S1 Hc2 E2) as [S2 B2].
+    split; auto. intros p0 Hp. destruct a, b; simpl in Hp; try discriminate; injection Hp as <-; simpl;
+      rewrite ?(B1 _ eq_refl), ?(B2 _ eq_refl); auto.
+Qed.
+
+Lemma envs_of_nil d js : envs_of d js [] = [].
+Proof. induction js; simpl; auto. Qed.
+
+Lemma agree_empty sc q w s v root :
+  translate sc q = TOk s -> f07 sc q w = true -> q_vars q = [(v, root)] -> instances sc w root = [] ->
+  sem_res s (encode sc w) = answers sc q w.
+Proof.
+  intros Ht Hf Ev Hi. unfold f07 in Hf. rewrite Ev in Hf.
+  destruct (q_cond q) as [c|] eqn:Ec; try discriminate.
+  repeat (apply andb_true_iff in Hf; destruct Hf as [Hf ?]).
+  rename H1 into Hshape. apply Z.eqb_eq in Hf.
+  unfold translate in Ht. rewrite Ev, Ec, <- Hf in Ht. simpl assoc in Ht. rewrite Z.eqb_refl in Ht.
+  destruct (tcond sc [(v, root)] root jm0 c) as [p st| | |] eqn:Et; try discriminate.
+  injection Ht as <-.
+  destruct (tcond_safe sc v root c jm0 p st (conj eq_refl eq_refl) Hshape Et) as [[_ S2] B].
+  unfold sem_res, sem. cbn [s_invalid s_where s_joins s_root]. rewrite S2.
+  assert (Hb : match p with Some p0 => pred_bad p0 | None => false end = false).
+  { destruct p; auto. }
+  rewrite Hb. cbn [orb]. unfold encode at 2. rewrite Hi. cbn [map]. rewrite envs_of_nil.
+  unfold answers. rewrite Ev. cbn [bindings]. rewrite Hi. reflexivity.
+Qed.
+
+Theorem agree sc q w s :
+  translate sc q = TOk s -> f07 sc q w = true -> sem_res s (encode sc w) = answers sc q w.
+Proof.
+  intros Ht Hf. assert (Hf' := Hf). unfold f07 in Hf'.
+  destruct (q_vars q) as [|[v root] [|]] eqn:Ev; try discriminate.
+  destruct (instances sc w root) eqn:Ei.
+  - eapply agree_empty; eauto.
+  - eapply agree_nonempty; eauto. exists v, root. split; auto. rewrite Ei. discriminate.
+Qed.
+
+(* ---------- the(...) / .one() ---------- *)
+Theorem the_agree sc q w s :
+  translate sc q = TOk s -> f07 sc q w = true -> one_of (sem_res s (encode sc w)) = one_of (answers sc q w).
+Proof. intros H1 H2. now rewrite (agree sc q w s H1 H2). Qed.
+
+(* ---------- node kinds the translator does not know are never answered ---------- *)
+Lemma tcond_not sc vars root c : has_not c = true -> forall st p st', tcond sc vars root st c <> ROk p st'.
+Proof.
+  induction c as [op l r|ct it|p1 IH1 q1 IH2|p1 IH1 q1 IH2|p1 _|x]; intros Hn st p st'; simpl in Hn; try discriminate.
+  - cbn [tcond]. destruct (tcond sc vars root st p1) as [a st1| | |] eqn:E1; try discriminate.
+    destruct (has_not p1) eqn:N1; [exfalso; eapply IH1; eauto|]. simpl in Hn.
+    destruct (tcond sc vars root st1 q1) as [b st2| | |] eqn:E2; try discriminate. exfalso; eapply IH2; eauto.
+  - cbn [tcond]. destruct (tcond sc vars root st p1) as [a st1| | |] eqn:E1; try discriminate.
+    destruct (has_not p1) eqn:N1; [exfalso; eapply IH1; eauto|]. simpl in Hn.
+    destruct (tcond sc vars root st1 q1) as [b st2| | |] eqn:E2; try discriminate. exfalso; eapply IH2; eauto.
+Qed.
+Theorem not_never_answered sc q c : q_cond q = Some c -> has_not c = true -> forall s, translate sc q <> TOk s.
+Proof.
+  intros Hc Hn s. unfold translate. rewrite Hc. destruct (assoc (q_sel q) (q_vars q)); try discriminate.
+  destruct (tcond sc (q_vars q) z jm0 c) eqn:E; try discriminate. exfalso. eapply tcond_not; eauto.
+Qed.
+Lemma top_not_rejected sc vars root st c : tcond sc vars root st (CNot c) = RReject.
+Proof. reflexivity. Qed.
+
+(* every query of the fragment whose selected type has an instance is accepted *)
+Theorem f07_accepted sc q w v root :
+  f07 sc q w = true -> q_vars q = [(v, root)] -> instances sc w root <> [] -> exists s, translate sc q = TOk s.
+Proof.
+  intros Hf Ev Hne. unfold f07 in Hf. rewrite Ev in Hf.
+  destruct (q_cond q) as [c|] eqn:Ec; try discriminate.
+  repeat (apply andb_true_iff in Hf; destruct Hf as [Hf ?]).
+  rename H into Hall, H0 into Hnd, H1 into Hshape. apply Z.eqb_eq in Hf.
+  destruct (instances sc w root) as [|o rest] eqn:Ei; [now destruct Hne|].
+  rewrite forallb_forall in Hall.
+  destruct (tcond_ok sc w o v root c jm0 [row_of o] inv_jm0 eq_refl Hshape (Hall o (or_introl eq_refl)))
+    as [p0 [st' [more [b [T _]]]]].
+  unfold translate. rewrite Ev, Ec, <- Hf. simpl assoc. rewrite Z.eqb_refl, T. eauto.
+Qed.
+
+(* ---------- witnesses outside F07 (each replayed on the implementation: corpus/C07/kf_*.json) ---------- *)
+Module Wit.
+  (* classes: 1 Position(x=3,y=4)  3 Orientation(w=6)  4 Pose(position=7 -> 1, orientation=8 -> 3)  5 Body(name=1) *)
+  Definition sc : schema :=
+    {| sc_fields := [(1, [(3, FScalar); (4, FScalar)]); (3, [(6, FScalar)]);
+                     (4, [(7, FRel 1); (8, FRel 3)]); (5, [(1, FScalar)])];
+       sc_sub := [(1, 1); (3, 3); (4, 4); (5, 5)] |}.
+  Definition w : world :=
+    [ {| o_key := 1; o_cls := 1; o_fields := [(3, VInt 1); (4, VInt 0)] |};
+      {| o_key := 2; o_cls := 1; o_fields := [(3, VInt 0); (4, VInt 3)] |};
+      {| o_key := 3; o_cls := 3; o_fields := [(6, VNull)] |};
+      {| o_key := 4; o_cls := 3; o_fields := [(6, VInt 1)] |};
+      {| o_key := 5; o_cls := 4; o_fields := [(7, VRef 1); (8, VRef 3)] |};
+      {| o_key := 6; o_cls := 4; o_fields := [(7, VRef 2); (8, VRef 4)] |};
+      {| o_key := 7; o_cls := 5; o_fields := [(1, VStr [66; 111; 100; 121; 49])] |} ].   (* "Body1" *)
+  Definition mk (the : bool) (vars : list (Z * Z)) (c : cond) : query :=
+    {| q_the := the; q_sel := 1; q_vars := vars; q_cond := Some c |}.
+  (* entity(p, q.x >= 1), p q : Position *)
+  Definition q_othervar := mk false [(1, 1); (2, 1)] (CCmp OGe (OAttr 2 [3]) (OLit (VInt 1))).
+  (* entity(o, o.w != 1) and entity(o, o.w < 0) *)
+  Definition q_null_ne := mk false [(1, 3)] (CCmp ONe (OAttr 1 [6]) (OLit (VInt 1))).
+  Definition q_null_lt := mk false [(1, 3)] (CCmp OLt (OAttr 1 [6]) (OLit (VInt 0))).
+  (* entity(s, s.position == 2) *)
+  Definition q_fk := mk false [(1, 4)] (CCmp OEq (OAttr 1 [7]) (OLit (VInt 2))).
+  (* entity(b, contains(b.name, "body")) *)
+  Definition q_like := mk false [(1, 5)] (CContains (OAttr 1 [1]) (OLit (VStr [98; 111; 100; 121]))).
+  (* entity(s, s.position == p), p : Position *)
+  Definition q_varop := mk false [(1, 4); (2, 1)] (CCmp OEq (OAttr 1 [7]) (OVar 2)).
+  (* entity(o, o.w < None) *)
+  Definition q_noneorder := mk false [(1, 3)] (CCmp OLt (OAttr 1 [6]) (OLit VNull)).
+  (* entity(s, s.position == t.position), s t : Pose *)
+  Definition q_selfjoin := mk false [(1, 4); (2, 4)] (CCmp OEq (OAttr 1 [7]) (OAttr 2 [7])).
+  (* inside F07: entity(s, and_(s.position.x >= 1, or_(s.orientation.w == 1, s.position.y < s.position.x))) over poses with non-None w *)
+  Definition w_ok : world :=
+    [ {| o_key := 1; o_cls := 1; o_fields := [(3, VInt 1); (4, VInt 0)] |};
+      {| o_key := 2; o_cls := 1; o_fields := [(3, VInt 0); (4, VInt 3)] |};
+      {| o_key := 4; o_cls := 3; o_fields := [(6, VInt 1)] |};
+      {| o_key := 5; o_cls := 4; o_fields := [(7, VRef 1); (8, VRef 4)] |};
+      {| o_key := 6; o_cls := 4; o_fields := [(7, VRef 2); (8, VRef 4)] |} ].
+  Definition q_ok := mk false [(1, 4)]
+    (CAnd (CCmp OGe (OAttr 1 [7; 3]) (OLit (VInt 1)))
+          (COr (CCmp OEq (OAttr 1 [8; 6]) (OLit (VInt 1))) (CCmp OLt (OAttr 1 [7; 4]) (OAttr 1 [7; 3])))).
+End Wit.
+
+Definition model_res (sc : schema) (q : query) (w : world) : option (res (list Z)) :=
+  match translate sc q with TOk s => Some (sem_res s (encode sc w)) | _ => None end.
+
+Lemma refuted_othervar :
+  model_res Wit.sc Wit.q_othervar Wit.w = Some (Ok [1]) /\ answers Wit.sc Wit.q_othervar Wit.w = Ok [1; 2].
+Proof. split; vm_compute; reflexivity. Qed.
+Lemma refuted_null :
+  (model_res Wit.sc Wit.q_null_ne Wit.w = Some (Ok []) /\ answers Wit.sc Wit.q_null_ne Wit.w = Ok [3]) /\
+  (model_res Wit.sc Wit.q_null_lt Wit.w = Some (Ok []) /\ answers Wit.sc Wit.q_null_lt Wit.w = Err TypeErr).
+Proof. repeat split; vm_compute; reflexivity. Qed.
+Lemma refuted_fk_literal :
+  model_res Wit.sc Wit.q_fk Wit.w = Some (Ok [6]) /\ answers Wit.sc Wit.q_fk Wit.w = Ok [].
+Proof. split; vm_compute; reflexivity. Qed.
+Lemma refuted_like :
+  model_res Wit.sc Wit.q_like Wit.w = Some (Ok [7]) /\ answers Wit.sc Wit.q_like Wit.w = Ok [].
+Proof. split; vm_compute; reflexivity. Qed.
+Lemma refuted_varoperand :
+  model_res Wit.sc Wit.q_varop Wit.w = Some (Err TypeErr) /\ answers Wit.sc Wit.q_varop Wit.w = Ok [5; 6].
+Proof. split; vm_compute; reflexivity. Qed.
+Lemma refuted_noneorder : translate Wit.sc Wit.q_noneorder = TCrash.
+Proof. vm_compute; reflexivity. Qed.
+Lemma refuted_selfjoin :
+  model_res Wit.sc Wit.q_selfjoin Wit.w = Some (Err TypeErr) /\ answers Wit.sc Wit.q_selfjoin Wit.w = Ok [5; 6].
+Proof. split; vm_compute; reflexivity. Qed.
+Lemma nonvacuous :
+  f07 Wit.sc Wit.q_ok Wit.w_ok = true /\ model_res Wit.sc Wit.q_ok Wit.w_ok = Some (Ok [5]) /\
+  answers Wit.sc Wit.q_ok Wit.w_ok = Ok [5].
+Proof. repeat split; vm_compute; reflexivity. Qed.
